@@ -384,7 +384,9 @@ def binary_run(ctx):
     discretisation error"""
     import subprocess, tempfile, os, vp_build
     tg = ctx.build(harness=("impl_fp", "h5cat"), want_binary=True)
+    import atexit, shutil
     td = tempfile.mkdtemp(prefix="c04_")
+    atexit.register(shutil.rmtree, td, True)      # removed when the check ends, whatever happens in between
     for deriv in (3, 4):
         for zoom in (0.5, 2.0):
             out = os.path.join(td, "r%d_%s.h5" % (deriv, zoom))
